@@ -71,7 +71,7 @@ Section Law.
         | Some w0 =>
             (* the new value: what the trait stores — the validated value, or the assigned object itself for traits
                that keep the original (Expression, AdaptsTo); an Event reports the validated value *)
-            let w := match e_kind E with TEvent => w0 | TNormal _ => if e_store_original E then v else w0 end in
+            let w := match e_kind E with TEvent => w0 | TNormal _ => new_value E v w0 end in
             let old := match e_kind E with TEvent => OUndefined | TNormal _ => OVal (readable E s) end in
             let '(lo, hi) := expected (readable E s) w in
             let per := map (fun h => calls_of (h_id h) (o_calls ob)) hs in
